@@ -373,41 +373,89 @@ def check_qdone(ctx, f, fa, rule):
 
 
 def check_thresholds(ctx, f, fa, rule):
-    """lower uses diff < -lower*sigma, upper uses diff > upper*sigma, each in the sigma and in the invvar branch."""
+    """lower uses diff < -lower*sigma, upper uses diff > upper*sigma, each in the sigma and in the invvar branch.  The four tests are
+    found by what is known on the way to them (lower / upper given, sigma given or not), however the branches are nested."""
+    from ..astutil import path_conditions
+    params = set(f.params)
+
     def res(n):
-        if n.id in ('diff', 'sigma', 'lower', 'upper', 'invvar'):
+        if n.id in params:
             return None
         return fa.resolve(n)
-    for side, opcls, sign in (('lower', ast.Lt, -1), ('upper', ast.Gt, 1)):
-        blk = [n for n in walk_local(f.node) if isinstance(n, ast.If) and src(n.test) == '%s is not None' % side]
-        ctx.need(blk, 'djs_reject: %s block not found' % side)
-        qb = [st for st in walk_local(blk[0]) if isinstance(st, ast.Assign) and src(st.targets[0]) == 'qbad']
-        for st in qb:
-            c = st.value
-            ok = isinstance(c, ast.Compare) and isinstance(c.ops[0], opcls)
 
-            def at(e):
-                if isinstance(e, ast.Call) and call_name(e) == 'sqrt' and src(e.args[0]) == 'invvar':
-                    return 'sqrt(invvar)'
+    def at(e):
+        if isinstance(e, ast.Call) and call_name(e) == 'sqrt' and len(e.args) == 1 and isinstance(e.args[0], ast.Name) and e.args[0].id == 'invvar':
+            return 'sqrt(invvar)'
+        return None
+
+    def given(node, name):
+        """+1: reached only when `name is not None`; -1: only when it is None; 0: unknown."""
+        for t_, pol in path_conditions(node):
+            for x in ([t_] if not (isinstance(t_, ast.BoolOp) and isinstance(t_.op, ast.And) and pol) else t_.values):
+                k = _is_none_test(x, name)
+                if k:
+                    return -k if pol else k
+        return 0
+    try:
+        diff = poly_of(ast.BinOp(left=ast.Name(id=f.params[0], ctx=ast.Load()), op=ast.Sub(), right=ast.Name(id=f.params[1], ctx=ast.Load())))
+    except NotPoly:
+        diff = None
+    found = {}
+    undecided = []
+
+    def res_in(mode):
+        want = 1 if mode == 'sigma' else -1
+
+        def r_(n):
+            if n.id in params:
                 return None
+            ds = [(d, v) for d, v in fa.defs(n) if d is not None and given(d, 'sigma') in (0, want)]
+            if len(ds) == 1 and ds[0][1] is not None:
+                return ds[0][1]
+            if len(ds) > 1:
+                raise NotPoly('several definitions of %s' % n.id)
+            return None
+        return r_
+    for st in walk_local(f.node):
+        if not (isinstance(st, ast.Assign) and len(st.targets) == 1 and isinstance(st.targets[0], ast.Name) and isinstance(st.value, ast.Compare)
+                and len(st.value.ops) == 1 and isinstance(st.value.ops[0], (ast.Lt, ast.Gt, ast.LtE, ast.GtE))):
+            continue
+        sides = [sd for sd in ('lower', 'upper') if given(st, sd) == 1]
+        if len(sides) != 1:
+            continue
+        side = sides[0]
+        sg = given(st, 'sigma')
+        opcls, sign = (ast.Lt, -1) if side == 'lower' else (ast.Gt, 1)
+        c = st.value
+        for mode in (('sigma',) if sg == 1 else ('invvar',) if sg == -1 else ('sigma', 'invvar')):
+            ok = isinstance(c.ops[0], (ast.Lt, ast.Gt))
             form = ''
             if ok:
                 try:
-                    l = poly_of(c.left, atom=at, resolve=res)
-                    r = poly_of(c.comparators[0], atom=at, resolve=res)
-                    if l == Poly.atom('diff'):
-                        ok = r == Poly.atom(side).scale(sign) * Poly.atom('sigma')
+                    l = poly_of(c.left, atom=at, resolve=res_in(mode))
+                    r = poly_of(c.comparators[0], atom=at, resolve=res_in(mode))
+                    if not isinstance(c.ops[0], opcls):
+                        l, r = -l, -r                    # a > b  reads  -a < -b
+                    if mode == 'sigma':
+                        ok = l == diff and r == Poly.atom(side).scale(sign) * Poly.atom('sigma')
                         form = 'diff %s %s*%s*sigma' % ('<' if sign < 0 else '>', sign, side)
                     else:
-                        ok = l == Poly.atom('diff') * Poly.atom('sqrt(invvar)') and r == Poly.atom(side).scale(sign)
+                        ok = l == diff * Poly.atom('sqrt(invvar)') and r == Poly.atom(side).scale(sign)
                         form = 'diff*sqrt(invvar) %s %s*%s' % ('<' if sign < 0 else '>', sign, side)
-                except NotPoly:
+                except NotPoly as e:
+                    if sg == 0:
+                        undecided.append('%s limit, %s branch: `%s` (%s)' % (side, mode, src(c), e))
+                        continue
                     ok = False
-            ctx.check(rule, ok, f, st, '%s limit: %s' % (side, form or src(c)),
+            found[(side, mode)] = found.get((side, mode), 0) + 1
+            ctx.check(rule, ok, f, st, '%s limit (%s branch): %s' % (side, mode, form or src(c)),
                       msg='the %s rejection test is `%s` (expected diff %s %s%s*sigma, resp. diff*sqrt(invvar) %s %s%s)'
                           % (side, src(c), '<' if sign < 0 else '>', '-' if sign < 0 else '', side, '<' if sign < 0 else '>', '-' if sign < 0 else '', side),
                       construct='%s test %s' % (side, src(c)))
-        ctx.need(len(qb) == 2, 'djs_reject: expected sigma and invvar branches for %s' % side)
+    for side in ('lower', 'upper'):
+        for mode in ('sigma', 'invvar'):
+            if (side, mode) not in found:
+                raise AnalysisError('%s: djs_reject: expected sigma and invvar branches for %s%s' % (rule.split('.')[0], side, ('; ' + undecided[0]) if undecided else ''))
 
 
 def check_aesthetics(ctx, repo):
